@@ -26,7 +26,9 @@ MODEL_FILES = ["model/Base.v", "model/ModNames.v", "model/Str.v", "model/PyAst.v
 PROOF_FILES = ["proofs/C08Proofs.v", "proofs/C08Member.v", "props/C08.v"]
 
 MOD_IMP = ("def mfunc(z):\n    return z.attr_mfunc\n\ndef ifunc(z):\n    return z.attr_ifunc\n\ndef gfunc(z):\n    return z.attr_mod_gfunc\n\n"
-           "class GCls:\n    def __init__(self, z, extra=None):\n        self.h = z.attr_mod_GCls\n\ndef twice(z):\n    return z.attr_mod_twice\n")
+           "class GCls:\n    def __init__(self, z, extra=None):\n        self.h = z.attr_mod_GCls\n\n    @staticmethod\n    def make(z):\n        return z.attr_mod_make\n\n"
+           "    def flush(self, z):\n        return z.attr_mod_method_flush\n\ndef twice(z):\n    return z.attr_mod_twice\n\n"
+           "def flush(z):\n    return z.attr_mod_flush\n\nregistry = GCls(1)\n")
 PRELUDE = """import mod_imp
 from mod_imp import ifunc
 
@@ -53,11 +55,12 @@ def twice(z):
 """
 ROOT = [("mod_imp", "RModuleImport"), ("ifunc", "RFromImport"), ("gfunc", "RFunc"), ("glam", "RLambda"), ("GCls", "RClass"),
         ("GCls.smeth", "RStatic"), ("gvar", "RVariable"), ("twice", "RFunc"), ("len", "RBuiltin"), ("print", "RBuiltin")]
-MEMBERS = ["mod_imp.mfunc", "mod_imp.ifunc", "mod_imp.gfunc", "mod_imp.twice"]
+MEMBERS = ["mod_imp.mfunc", "mod_imp.ifunc", "mod_imp.gfunc", "mod_imp.twice", "mod_imp.flush", "mod_imp.GCls.make"]
 # callable name -> the distinctive attribute its body reads
 ATTR = {"gfunc": "attr_gfunc", "glam": "attr_glam", "GCls": "attr_GCls", "GCls.smeth": "attr_smeth", "ifunc": "attr_ifunc",
-        "mod_imp.mfunc": "attr_mfunc", "mod_imp.gfunc": "attr_mod_gfunc", "mod_imp.ifunc": "attr_ifunc", "twice": "attr_twice_last", "mod_imp.twice": "attr_mod_twice"}
-OTHER_ATTRS = ["attr_mod_GCls", "attr_twice_first"]
+        "mod_imp.mfunc": "attr_mfunc", "mod_imp.gfunc": "attr_mod_gfunc", "mod_imp.ifunc": "attr_ifunc", "twice": "attr_twice_last", "mod_imp.twice": "attr_mod_twice",
+        "mod_imp.flush": "attr_mod_flush", "mod_imp.GCls.make": "attr_mod_make"}
+OTHER_ATTRS = ["attr_mod_GCls", "attr_twice_first", "attr_mod_method_flush"]
 ALL_ATTRS = sorted(set(ATTR.values()) | set(OTHER_ATTRS))
 
 
@@ -98,6 +101,10 @@ def sites():
     add("def CALLER(a):\n    return mod_imp.gfunc(a)\n", ["a"], "mod_imp.gfunc", tag="module member named like a local function")
     add("def CALLER(a):\n    return mod_imp.twice(a)\n", ["a"], "mod_imp.twice", tag="module member named like a local function")
     add("def CALLER(a):\n    box = GCls(a)\n    return box\n", ["a"], "GCls", tag="class named like a class of an imported module")
+    add("def CALLER(a):\n    return mod_imp.flush(a)\n", ["a"], "mod_imp.flush", tag="module member")
+    add("def CALLER(a):\n    return mod_imp.registry.flush(a)\n", ["a"], "mod_imp.registry.flush", tag="method on an attribute of a module, named like a module function")
+    add("def CALLER(a):\n    return mod_imp.GCls.flush(a, a)\n", ["a"], "mod_imp.GCls.flush", tag="plain method through the class of a module, named like a module function")
+    add("def CALLER(a):\n    return mod_imp.GCls.make(a)\n", ["a"], "mod_imp.GCls.make", tag="static method of a class of a module")
     add("def CALLER(a):\n    return mod_imp.missing(a)\n", ["a"], "mod_imp.missing", tag="module member, undefined")
     add("def CALLER(a):\n    return GCls.smeth(a)\n", ["a"], "GCls.smeth", tag="static method")
     add("def CALLER(a):\n    return GCls.gfunc(a)\n", ["a"], "GCls.gfunc", tag="class attribute named like a function")
